@@ -206,23 +206,24 @@ def native_loop_count_replay(algo_name, which):
         from lvc.generic import SimpleCallback
         cb = SimpleCallback("cb")
         # the last three: learning_starts below batch_size / num_envs (0 included) - warm-up still stores exactly learning_starts
-        for ls, ns, ne, bs in ((10, 4, 1, 2), (3, 4, 1, 2), (5, 2, 2, 2), (4, 4, 1, 2), (7, 3, 2, 2), (0, 4, 1, 2), (2, 8, 1, 8), (1, 4, 2, 4)):
+        # ... and the last two: learning_starts beyond the per-environment capacity (buffer_size // num_envs): the ring wraps, the count of stored transitions does not
+        for ls, ns, ne, bs, *cap in ((10, 4, 1, 2), (3, 4, 1, 2), (5, 2, 2, 2), (4, 4, 1, 2), (7, 3, 2, 2), (0, 4, 1, 2), (2, 8, 1, 8), (1, 4, 2, 4), (12, 2, 2, 2, 16), (9, 2, 1, 2, 4)):
             if algo_name == "DQN":
                 env = CartPole()
-                algo = DQN(num_envs=ne, buffer_size=64, learning_starts=ls, num_steps=ns, batch_size=bs)
+                algo = DQN(num_envs=ne, buffer_size=(cap or [64])[0], learning_starts=ls, num_steps=ns, batch_size=bs)
                 pol = MLPQPolicy(env, width_size=4, depth=1, key=jax.random.key(0))
             else:
                 env = Pendulum()
-                algo = SAC(num_envs=ne, buffer_size=64, learning_starts=ls, num_steps=ns, batch_size=bs, q_width_size=4, q_depth=1)
+                algo = SAC(num_envs=ne, buffer_size=(cap or [64])[0], learning_starts=ls, num_steps=ns, batch_size=bs, q_width_size=4, q_depth=1)
                 pol = MLPSACPolicy(env, feature_size=4, width_size=4, depth=1, key=jax.random.key(0))
             st = algo.reset(env, pol, key=jax.random.key(1), callback=cb)
             p0 = np.asarray(st.step_state.buffer.position).reshape(-1).tolist()
             st1 = algo.iteration(st, key=jax.random.key(2), callback=cb)
             p1 = np.asarray(st1.step_state.buffer.position).reshape(-1).tolist()
             if p0 != [ls] * ne or p1 != [ls + ns] * ne:
-                return dict(reproduced=True, route=f"R1 (real {algo_name}.reset / iteration on a real environment and policy)", inputs=dict(learning_starts=ls, num_steps=ns, num_envs=ne, batch_size=bs),
+                return dict(reproduced=True, route=f"R1 (real {algo_name}.reset / iteration on a real environment and policy)", inputs=dict(learning_starts=ls, num_steps=ns, num_envs=ne, batch_size=bs, buffer_size=(cap or [64])[0]),
                             observed=dict(stored_after_warm_up=p0, stored_after_one_iteration=p1, expected=[[ls] * ne, [ls + ns] * ne]))
-        return dict(reproduced=False, note="warm-up stores learning_starts and every iteration num_steps transitions per environment on 8 configurations (3 with learning_starts < batch_size / num_envs)")
+        return dict(reproduced=False, note="warm-up stores learning_starts and every iteration num_steps transitions per environment on 10 configurations (3 with learning_starts < batch_size / num_envs, 2 with learning_starts beyond the per-environment capacity)")
     return replay
 
 
